@@ -1,1 +1,128 @@
-From TT Require Import Lib.Base Model.AsyncRun Spec.C14 Corr.C14 Proof.C14.
+(* C14 - Deferred-returning tests succeed iff all completed cleanly; reactor left clean (PARTIAL:
+   the reactor, Twisted's Deferred sequencing, GC of Deferreds and the log publisher are MODELLED
+   (Model/AsyncRun.v), tied to the code by the correspondence check over a virtual-time reactor).
+   Only statements; every proof is `exact <lemma of Proof/C14.v>`.  All theorems quantify over
+   every program: any stage behaviours, any number of cleanups, any delays relative to the
+   timeout, any interrupt instant, both variants, all logging options, any number of observers. *)
+From TT Require Import Lib.Base Model.Reactor Model.AsyncRun Spec.C14 Corr.C14 Gen.Spinnertabs Proof.C14.
+
+(* The model meets the whole statement.  wf (ForBrokenTwisted: no stage Deferred due exactly at the cut
+   instant) is where the model is claimed to be faithful to the code; the model itself meets the
+   statement for every program whatsoever (C14_holds_all). *)
+Theorem C14_holds : forall i : input, wf i -> spec_okb i (model i) = true.
+Proof. exact model_meets_spec_wf. Qed.
+Print Assumptions C14_holds.
+
+Theorem C14_holds_all : forall i : input, spec_okb i (model i) = true.
+Proof. exact model_meets_spec. Qed.
+Print Assumptions C14_holds_all.
+
+(* the executable statement is the readable one *)
+Theorem C14_statement : forall i o, spec_okb i o = true <-> Spec i o.
+Proof. exact spec_okb_iff. Qed.
+Print Assumptions C14_statement.
+
+(* the correspondence compares observations exactly *)
+Theorem C14_obs_eqb : forall a b, obs_eqb a b = true <-> a = b.
+Proof. exact obs_eqb_spec. Qed.
+Print Assumptions C14_obs_eqb.
+
+(* sequencing: the stages that ran are an initial segment of the plan; the first starts at 0; each further
+   one starts at exactly the instant at which its predecessor fired, and that was before the cut *)
+Theorem C14_sequencing : forall p,
+  (exists rest, map fst (plan p) = map fst (o_log (model p)) ++ rest)
+  /\ (forall k u l, o_log (model p) = (k, u) :: l -> k = id_setup /\ u = 0)
+  /\ (forall l1 k1 t1 k2 t2 l2, o_log (model p) = l1 ++ (k1, t1) :: (k2, t2) :: l2 ->
+      exists st1, In (k1, st1) (plan p) /\ fires_at (cut_instant p) t1 st1 = Some t2 /\ t1 <= t2).
+Proof. exact sequencing_words. Qed.
+Print Assumptions C14_sequencing.
+
+(* ... where the plan is setUp, test and tearDown (unless setUp failed), then the cleanups LAST REGISTERED
+   FIRST; and when nothing cut the run short every one of them ran and none stays registered *)
+Theorem C14_lifo : forall p,
+  map fst (plan p) =
+    id_setup :: (if stage_raises (i_setup p) then [] else [id_body; id_teardown])
+    ++ rev (map id_cleanup (seq 0 (length (i_cleanups p))))
+  /\ (completed p = true ->
+      o_cleanups_left (model p) = 0 /\ map fst (o_log (model p)) = map fst (plan p)).
+Proof. exact (fun p => conj (plan_ids p) (cleanups_all_run p)). Qed.
+Print Assumptions C14_lifo.
+
+(* a Deferred-returning stage fires exactly d ticks after it started, strictly before the cut *)
+Theorem C14_fires : forall C t st t',
+  fires_at C t st = Some t' ->
+  t <= t' /\ (forall d f, s_ret st = RLater d f -> t' = t + d /\ t' < C).
+Proof. exact fires_at_bounds. Qed.
+Print Assumptions C14_fires.
+
+Theorem C14_one_outcome : forall p,
+  exists x, o_events (model p) = [StartTest; x; StopTest] /\ In x [AddSuccess; AddError; AddFailure; AddSkip].
+Proof. exact one_outcome_holds. Qed.
+Print Assumptions C14_one_outcome.
+
+(* success iff every planned stage fired before the cut, none raised / failed / logged an error / dropped
+   a failed Deferred / started a poller, and no leftover delayed call was still scheduled at the end *)
+Theorem C14_success_iff : forall p,
+  In AddSuccess (o_events (model p))
+  <-> completed p = true /\ all_clean p = true /\ o_unrun (model p) = 0.
+Proof. exact success_iff. Qed.
+Print Assumptions C14_success_iff.
+
+(* timeout or interrupt: an error; result.stop() exactly for an interrupt *)
+Theorem C14_cut_is_error : forall p,
+  completed p = false ->
+  o_events (model p) = [StartTest; AddError; StopTest]
+  /\ (o_stop (model p) = true <-> cut_kind p = KInterrupt).
+Proof. exact cut_is_error. Qed.
+Print Assumptions C14_cut_is_error.
+
+Theorem C14_no_stop_otherwise : forall p, completed p = true -> o_stop (model p) = false.
+Proof. exact no_stop_without_interrupt. Qed.
+Print Assumptions C14_no_stop_otherwise.
+
+(* after every run the reactor holds no delayed call and the observers are those installed before *)
+Theorem C14_clean : forall p, o_pending (model p) = 0 /\ o_observers_same (model p) = true.
+Proof. exact left_clean. Qed.
+Print Assumptions C14_clean.
+
+(* ... because Spinner._clean cancels every call of a fresh getDelayedCalls() list: whatever the queue *)
+Theorem C14_spinner_clean : forall q : list (dcall bool), spinner_clean q = [].
+Proof. exact spinner_clean_nil. Qed.
+Print Assumptions C14_spinner_clean.
+
+(* ... and the fixtures' cleanups undo, in reverse, what their set-ups did: any number of observers, every
+   combination of suppress_twisted_logging / store_twisted_logs *)
+Theorem C14_observers : forall p, observers_after p = initial_observers p.
+Proof. exact observers_restored. Qed.
+Print Assumptions C14_observers.
+
+(* table obligations (coq/Gen/Spinnertabs.v is printed from the imported code on every run) *)
+Theorem C14_tab_iterations :
+  runner_iterations = spinner_iterations /\ runner_iterations <= broken_runner_iterations.
+Proof. exact (conj tab_plain_is_spinner_default tab_iterations_le). Qed.
+Print Assumptions C14_tab_iterations.
+
+(* the ForBrokenTwisted variant never finds more junk than the plain one in the same situation *)
+Theorem C14_variants : forall p q m,
+  i_broken p = true -> i_broken q = false -> incl (junk_of p m) (junk_of q m).
+Proof. exact broken_shakes_out. Qed.
+Print Assumptions C14_variants.
+
+(* non-vacuity: a failing asynchronous body, an asynchronous tearDown, two cleanups of which the first
+   registered raises KeyboardInterrupt (the F11 shape): everything runs, in order, error reported; the same
+   program cut by a timeout of 3; a clean asynchronous test that succeeds; a leftover delayed call *)
+Example C14_example :
+  let st r := mkStage r [] false false false in
+  let p T := mkProgram false true true 1 T None (st RReturn) (st (RLater 2 (Some CFail))) (st (RLater 2 None))
+                       [st (RRaise CKbd); st (RLater 1 None)] in
+  wf (p 9)
+  /\ o_log (model (p 9)) = [(0, 0); (1, 0); (2, 2); (11, 4); (10, 5)]
+  /\ o_events (model (p 9)) = [StartTest; AddError; StopTest]
+  /\ o_raised (model (p 9)) = Some CKbd /\ o_cleanups_left (model (p 9)) = 0
+  /\ o_log (model (p 3)) = [(0, 0); (1, 0); (2, 2)]
+  /\ o_events (model (p 3)) = [StartTest; AddError; StopTest] /\ o_cleanups_left (model (p 3)) = 2
+  /\ o_events (model (mkProgram true false false 0 9 (Some 20) (st RReturn) (st (RLater 8 None)) (st RReturn)
+                         [st (RLater 0 None)])) = [StartTest; AddSuccess; StopTest]
+  /\ o_events (model (mkProgram false true true 0 9 None (st RReturn) (mkStage RReturn [3] false false false)
+                         (st RReturn) [])) = [StartTest; AddError; StopTest].
+Proof. vm_compute. repeat split. Qed.
